@@ -67,6 +67,9 @@ def gen_project(rng):
             sites.append(s)
         if not sites:
             sites = [{"id": 0, "op": "eq", "old": None, "obs": ["1"], "place": "loop"}]
+        # the same values in every project: their code depends on the project's formatter options only
+        sites.append({"id": 0, "op": "eq", "old": None, "obs": ["list(range(1000, 1012))"], "place": "loop", "sig": "same-value-everywhere"})
+        sites.append({"id": 0, "op": "eq", "old": None, "obs": ["'hello ' + 'world'"], "place": "loop", "sig": "same-value-everywhere"})
         for k, s in enumerate(sites):
             s["id"] = k
         hasrepr_import = rng.random() < 0.5
@@ -99,7 +102,7 @@ def gen_project(rng):
             files[f"test_f{fi}.py"] = src
     if rng.random() < 0.3:
         ll = rng.choice([30, 60, 100])
-        files["pyproject.toml"] = f"[tool.black]\nline-length = {ll}\n"
+        files["pyproject.toml"] = f"[tool.black]\nline-length = {ll}\n" + ("skip-string-normalization = true\n" if rng.random() < 0.5 else "")
         feats.add("pyproject-black")
     return files, feats
 
